@@ -7,7 +7,7 @@ from checks.c15 import run_lic
 PID = "C16"
 def run():
     t0 = time.time(); v = vlib.Verdict(PID); acc = Acc(); th = vlib.TIER == "thorough"
-    env = {"VERIF_FILES": "178" if th else "40", "VERIF_VARIANTS": "upper,lower,reflow,decorated" if th else "upper,reflow,decorated"}
+    env = {"VERIF_FILES": "178" if th else "40", "VERIF_VARIANTS": "upper,lower,reflow,decorated,oneline" if th else "upper,reflow,decorated,oneline"}
     recs, rc, txt = run_lic("TestVerifC16", env, timeout=7000)
     for r in recs:
         if r.get("ev") == "loadfail":
